@@ -7,9 +7,10 @@
      3 flags (4 = EMPTY, 8 = HAS_PARTIAL_ITEM) | 4..7 k
      then, unless empty: 8..15 n | 16..23 cumulative weight | 24..31 maximum weight | 32..39 rho |
      40..47 C | 48.. the floor(C) full items, 8 bytes each | the partial item iff C is not an integer.
-   The readers are modelled as REPAIRED by fixes/11_ebpps_reader_checks.patch: the stream reader tests the stream state
+   The readers are modelled as REPAIRED by fixes/11_ebpps_c_range.patch + 11_ebpps_stream_state.patch + 11_ebpps_zero_c_image.patch: the stream reader tests the stream state
    after each group of fixed-size fields before using them, and both readers reject a C that is NaN or not below 2^32
-   before converting it to the 32-bit item count (the unrepaired behaviour is in Regression_ebppscodec.v).
+   before converting it to the 32-bit item count, and a non-empty image whose C is 0.0 is rejected (the restored sketch
+   could not be serialized again); the unrepaired behaviour is in Regression_ebppscodec.v.
    A read outside the supplied bytes is [rd] returning None, which makes the reader reject.  No proofs here. *)
 From Coq Require Import NArith ZArith List Bool Arith.
 From DS Require Import Word RunnerLib ThetaCodecDefs.
@@ -77,6 +78,7 @@ Definition dec_sample (flp : bool) (bytes : list N) : option (N * list N * optio
   do c <- rd 8 0 bytes;
   if c_negative c then None else
   if negb (c_below_2_32 c) then None else
+  if c_is_zero c then None else                       (* repaired (11_ebpps_zero_c_image): the sketch reader rejects C == 0.0 *)
   (* the serde checks that the items fit in what is left before it copies them (the count is only then turned into a
      unary number here: a corrupted C may claim 2^32 - 1 items) *)
   if N.of_nat (length bytes) <? 8 + 8 * c_floor c then None else
